@@ -110,7 +110,8 @@ def snippet_prefixes():
 
 SOUP = ["int", "char", "\t", " ", "a", "b", ",", ";", "(", ")", "{", "}", "\n", "*", "=", "1", "[", "]", "#define", "#if", "#endif", "if", "else",
         "return", "struct", "typedef", "\"s\"", "?", ":", "->", "while", "static", "/* c */", "// c", "enum", "&&", "-", "sizeof", "#include",
-        "<a.h>", "...", "t_x", "'c'", "const", "void", "+", "++", "do", "goto", "union"]
+        "<a.h>", "...", "t_x", "'c'", "const", "void", "+", "++", "do", "goto", "union", "#ifndef", "#ifdef", "#undef", "#else", "#elif",
+        "NULL", "inline", "defined", "long", "unsigned", "case", "default", "for", "switch", ".", "__attribute__", "register", "extern"]
 
 
 def soup(rng, maxlen_exhaustive, nsample, maxlen_sample):
